@@ -103,12 +103,34 @@ func doCall(dt interface{}, m string, a J) (interface{}, uint32) {
 	return ret, 0
 }
 
+func splitHandle(a J) (string, J) {
+	h, _ := a["_h"].(string)
+	if _, ok := a["_h"]; !ok {
+		return "", a
+	}
+	b := J{}
+	for k, v := range a {
+		if k != "_h" {
+			b[k] = v
+		}
+	}
+	return h, b
+}
+
 func (w *world) stepCall(i int, m string, a J) (J, J, bool) {
+	hname, a := splitHandle(a)
 	cmd := J{"k": "call", "r": i, "m": m, "a": a}
+	if hname != "" {
+		cmd["h"] = hname
+	}
 	obs := J{}
 	r := w.reps[i]
 	hung := guarded(obs, func() {
-		ret, code := doCall(r.dt, m, a)
+		var target interface{} = r.dt
+		if hname != "" {
+			target = r.handle(hname)
+		}
+		ret, code := doCall(target, m, a)
 		obs["ret"] = ret
 		obs["err"] = code
 	})
@@ -128,7 +150,12 @@ func (txErr) Error() string { return "body failed" }
 
 func (w *world) stepTx(i int, tag string, calls []J, stop, fail bool) (J, J, bool) {
 	cs := make([]interface{}, 0, len(calls))
-	for _, c := range calls {
+	for ci, c := range calls {
+		if c["a"] != nil {
+			_, a := splitHandle(c["a"].(J))
+			c = J{"m": c["m"], "a": a}
+			calls[ci] = c
+		}
 		cs = append(cs, c)
 	}
 	cmd := J{"k": "tx", "r": i, "tag": tag, "calls": cs, "stop": stop, "fail": fail}
@@ -141,6 +168,8 @@ func (w *world) stepTx(i int, tag string, calls []J, stop, fail bool) (J, J, boo
 			if c["a"] != nil {
 				a = c["a"].(J)
 			}
+			// inside a transaction the generator addresses the root document only (a handle obtained
+			// outside the transaction must not be used inside its body)
 			ret, code := doCall(dt, c["m"].(string), a)
 			outs = append(outs, J{"ret": ret, "err": code})
 			if code != 0 && stop {
